@@ -34,3 +34,28 @@ reg(
                 "that hand-written tests sample once."),
     level_note="Trusts rustc/std unwinding and the harness's own generators; says nothing about inputs outside the enumerated bounds.",
 )
+
+reg(
+    "C02",
+    title="rendering is total and emits UTF-8",
+    level="exploration",
+    technique="runtime monitoring: panic/abort/hang + UTF-8 sink monitor over an exhaustive filter x input-kind x argument-kind matrix, tag/block edge sweeps and random programs on type-confused data; checked (overflow-trapping) and release builds, ASan/valgrind in the thorough tier",
+    design_ref="DESIGN.md §5 C02",
+    rule=("cases = (configuration, template, data). Families: every registered filter (stdlib, jekyll, shopify, extra) at arity 0, 1, 2 "
+          "with input and arguments drawn exhaustively from the hostile value pool; ~65 tag/block/path edge templates over x, y, z with "
+          "the data sweeping the pool for every variable used; random whole programs with partials on type-confused data. "
+          "distinct = distinct (template, data) by content hash; non-trivial = the template parsed and the render was actually executed "
+          "(templates rejected at parse are counted separately and are not evaluations)."),
+    profiles={"quick": ["checked"], "thorough": ["checked", "release"]},
+    floor={"quick": 150000, "thorough": 3000000},
+    hang_is_violation=True,
+    assumptions=[
+        "sizes that control allocation (range spans, integer bindings in random programs) are capped at 10^4 as the property's quantifier says",
+        "termination is observed as 'returned before the 60 s no-progress watchdog'; workers run under RLIMIT_AS = 8 GiB",
+        "integer overflow is observable because the checked profile traps it (overflow-checks=on); the release profile is run in the thorough tier to observe wrapping / unchecked UTF-8 conversion",
+    ],
+    level_text=("Exhaustive filter x input x argument matrix at arity <= 2 over a pool containing every value kind and the boundary "
+                "values of every parameter, plus edge sweeps of every tag and block, under crash, hang and UTF-8 monitors. Right level: "
+                "the property is a totality claim over (template, data) pairs whose failures live at type-confused and boundary inputs that no hand-written test renders."),
+    level_note="Trusts the harness's value pool to contain the boundary values of each parameter; memory-safety is only 'no sanitizer report on the sampled executions'.",
+)
